@@ -43,12 +43,16 @@ def swarm_config(rng, idx, default_every=7):
     cfg["p_prompt"] = rng.pick([0.6, 0.9, 0.97, 1.0])
     cfg["p_refuse"] = rng.pick([0.05, 0.2, 0.5])
     cfg["max_ops"] = rng.pick([20, 30, 45, 60])
+    # in some runs the completion of the agent's own closes is held back (peer not reading): the old
+    # connection's connectionLost then arrives while the next attempt / session is already under way
+    cfg["hold_cdone"] = rng.chance(0.12)
     return cfg
 
 
 class FsmCtx(BaseCtx):
     prop = "C01"
     judge_model = True
+    strict_lengths = True   # KEEPALIVE != 19 and OPEN < 29 count as Bad Message Length (RFC 4271 6.1)
     soft = False            # soft: a model mismatch is not a verdict, the model is re-synchronised
     regime_exit = True      # stop judging when the single-connection regime (C12a) is left
 
@@ -99,7 +103,7 @@ class FsmCtx(BaseCtx):
         for k, c in enumerate(live):
             if c.state == "connecting" and rng.chance(cfg["p_prompt"]):
                 return ["conn_refuse", k] if rng.chance(cfg["p_refuse"]) else ["conn_ok", k]
-            if c.closing() and rng.chance(cfg["p_prompt"]):
+            if c.closing() and not cfg.get("hold_cdone") and rng.chance(cfg["p_prompt"]):
                 return ["cdone", k]
         # zero-delay work pending (deferred writes): usually run it first
         due = w.reactor.due()
@@ -114,6 +118,10 @@ class FsmCtx(BaseCtx):
         if due:
             choices.append(("timer", cfg["w_timer"]))
             choices.append(("advance", cfg["w_timer"] * 0.5))
+        else:
+            # nothing is scheduled at all: time can still pass (a model timer may be due although the
+            # agent armed none)
+            choices.append(("advance", cfg["w_timer"] * 0.5))
         choices.append(("rest", cfg["w_rest"]))
         for k, c in enumerate(live):
             if c.state == "connecting":
@@ -121,7 +129,7 @@ class FsmCtx(BaseCtx):
                 break
         for k, c in enumerate(live):
             if c.closing():
-                choices.append(("cdone", 1.0))
+                choices.append(("cdone", 0.15 if cfg.get("hold_cdone") else 1.0))
                 break
         kind = rng.weighted(choices)
         if kind == "msg":
@@ -145,7 +153,9 @@ class FsmCtx(BaseCtx):
     def advance_op(self, rng):
         w = self.world
         nt = w.reactor.next_time()
-        gap = (nt - w.now()) if nt is not None else 10.0
+        if nt is None:
+            return ["advance", rng.pick([1.0, 30.0, 300.0])]
+        gap = nt - w.now()
         if gap <= 0:
             return ["fire", 0]
         frac = rng.pick([0.001, 0.25, 0.5, 0.9, 0.999, 1.0])
@@ -165,7 +175,7 @@ class FsmCtx(BaseCtx):
         order = PHASES.index
         live = w.live_conns()
         for k, c in enumerate(live):
-            if c.closing():
+            if c.closing() and not self.cfg.get("hold_cdone"):
                 return ["cdone", k]
         if m.phase == "Idle":
             if phase == "Idle":
@@ -267,7 +277,7 @@ class FsmCtx(BaseCtx):
         if cid in self.rx_dead:
             return []
         buf = self.rx.get(cid, b"") + chunk
-        frames, rest = rp.deframe(buf)
+        frames, rest = rp.deframe(buf, strict=self.strict_lengths)
         self.rx[cid] = rest
         if frames and frames[-1].error:
             self.rx_dead.add(cid)
